@@ -105,6 +105,12 @@ def attr_value(attr, shape, alpha, n, ncol):
         if attr in ROW_ATTRS:
             return [[fvalue(attr, alpha, 1, 0)] * ncol]
         return [[fvalue(attr, alpha, 0, c) for c in range(ncol)]]
+    if shape.startswith("cols") or shape.startswith("grid"):
+        # a per-column vector SHORTER than the original column count (k values, 2 <= k < ncol), recycled across the
+        # ORIGINAL columns: original column c shows vector[c mod k]; "grid<R>x<k>" is also shorter than the row count
+        rr, kk = short_dims(shape)
+        return [[fvalue(attr, alpha, r if shape.startswith("grid") else (1 if attr in ROW_ATTRS else 0), c) for c in range(kk)]
+                for r in range(rr)]
     if shape.startswith("pattern"):
         # a ROW PATTERN of R rows, 1 < R < nrow, recycled down the table: original row r shows pattern[r mod R]
         return [[fvalue(attr, alpha, r, c) for c in range(ncol)] for r in range(pattern_rows(shape))]
@@ -113,6 +119,21 @@ def attr_value(attr, shape, alpha, n, ncol):
 
 def pattern_rows(shape):
     return int(shape[len("pattern"):])
+
+
+def short_dims(shape):
+    """'cols3' -> (1, 3) ; 'grid3x2' -> (3, 2)"""
+    if shape.startswith("cols"):
+        return 1, int(shape[4:])
+    a, b = shape[4:].split("x")
+    return int(a), int(b)
+
+
+def shape_family(shape):
+    for fam in ("pattern", "cols", "grid"):
+        if shape.startswith(fam):
+            return fam
+    return shape
 
 
 def key_vector(n, level):
@@ -596,8 +617,12 @@ def eval_case(case: dict) -> dict:
     if case.get("removal"):
         cnt[f"removed-{len(case['removal'])}"] = 1
     for a, s in shapes.items():
-        s = "pattern" if s.startswith("pattern") else s
+        s = shape_family(s)
         cnt[f"shape-{s}"] = cnt.get(f"shape-{s}", 0) + 1
+    if case.get("removal") and any(shape_family(s) in ("cols", "grid") for s in shapes.values()):
+        removed_idx = [i for i, name in enumerate(order) if not name.startswith("c")]
+        if any(ci > min(removed_idx) for ci in colidx.values()):
+            cnt["short-column-vector-right-of-a-removed-column"] = 1
     for s in shapes.values():
         if s.startswith("pattern") and any(p and p[0] % pattern_rows(s) for p in pages[1:]):
             cnt["pattern-on-page-starting-off-cycle"] = 1
@@ -656,11 +681,34 @@ def pattern_shapes(n, quick):
     return tuple(f"pattern{r}" for r in rs if r < n)
 
 
+def column_short_shapes(n, ncol, quick):
+    """per-column vectors of k values, 2 <= k < ncol (ncol = ORIGINAL column count incl. the columns page_by / subline_by remove),
+    and one grid that is short in both directions"""
+    ks = sorted({2, ncol - 1}) if quick else list(range(2, ncol))
+    if n == 1 and quick:
+        return ()  # the 4-row tables subsume the single-row ones for column recycling
+    out = [f"cols{k}" for k in ks if 2 <= k < ncol]
+    if n >= 4 and (n == 4 or not quick):
+        out.append("grid3x2")
+    return tuple(out)
+
+
+def short_ladder(n, quick):
+    """the column-short shapes are about column slicing, not page starts: reduced nrow ladder"""
+    if n == 1:
+        return [HUGE]
+    if quick:
+        return [2, HUGE] if n == 4 else [HUGE]
+    return [s for s in (1, 2, 5) if s <= n] + [HUGE]
+
+
 def plan(run):
     quick = run.tier == "quick"
     sizes = (1, 4, 9) if quick else (1, 4, 9, 16, 40)
     run.rule = ("every body attribute (25) x shape {scalar, 1 x ncol, nrow x ncol, row pattern of R rows with 1 < R < nrow (R in 2,3; thorough also 4,7) recycled "
-                "down the table: original row r shows pattern[r mod R]}, values alphabet[(2r+c) mod 3] over the ORIGINAL frame shape "
+                "down the table: original row r shows pattern[r mod R], per-column vector of k values with 2 <= k < ORIGINAL column count (k = 2 and "
+                "ncol-1; thorough every k) recycled across the original columns: original column c shows vector[c mod k], one 3 x 2 grid short in "
+                "both directions; the column-short shapes on a reduced nrow ladder}, values alphabet[(2r+c) mod 3] over the ORIGINAL frame shape "
                 f"x rows {sizes} x nrow ladder from one row per page to one page x column removal {{none; page_by or subline_by removing 1 column at "
                 "every position; four 2-column removals (thorough: every position pair)}} incl. page_by with new_page; 3 data columns, one cell per row blank (null / empty string on a diagonal, so blanks hit first, middle and last rows and page starts). Quick: one "
                 "attribute at a time, one of three value alphabets per attribute rotated by VERIF_SEED; thorough: all three alphabets and every "
@@ -707,6 +755,19 @@ def plan(run):
                                 if rem:
                                     c["removal"] = rem
                                 cases.append(c)
+                # per-column vectors shorter than the ORIGINAL column count, recycled across columns
+                for rem in removal_variants(K, not quick and n <= 9):
+                    if n == 1 and rem and len(rem) > 1:
+                        continue
+                    for shape in column_short_shapes(n, K + len(rem or []), quick):
+                        if alpha != alphas[0] and shape not in ("cols2", "cols3"):
+                            continue
+                        for var in ([{}, {"new_page": True}] if rem == [["pb", 1]] else [{}]):
+                            for nrow in short_ladder(n, quick):
+                                c = {"n": n, "nrow": nrow, "attrs": {attr: [shape, alpha]}, **var}
+                                if rem:
+                                    c["removal"] = rem
+                                cases.append(c)
     run.layer("one-attribute", "mc.props.c09:eval_case", cases, chunk=40, total=len(cases))
     if not quick:
         pairs = []
@@ -723,7 +784,8 @@ def plan(run):
                             c["removal"] = rem
                         pairs.append(c)
         run.layer("attribute-pairs", "mc.props.c09:eval_case", pairs, chunk=40, total=len(pairs))
-    for need in ("pages=1", "pages>1", "one-row-per-page", "removed-1", "removed-2", "shape-scalar", "shape-row", "shape-matrix", "shape-pattern",
+    for need in ("pages=1", "pages>1", "one-row-per-page", "removed-1", "removed-2", "shape-scalar", "shape-row", "shape-matrix", "shape-pattern", "shape-cols", "shape-grid",
+                 "short-column-vector-right-of-a-removed-column",
                  "matrix-on-page-starting-off-cycle", "pattern-on-page-starting-off-cycle", "blank-null-cells-checked",
                  "blank-empty-string-cells-checked", "blank-cell-on-first-row-of-a-later-page", "blank-cell-in-last-row", "mid-page-segment", "metamorphic-pairs", "cells-checked"):
         if not run.cnt.get(need):
